@@ -22,7 +22,7 @@ ANCHORS = ["raggedshape.py::ViewBase.set_dtype", "raggedshape.py::ViewBase._inde
            "raggedshape.py::build_indices", "raggedshape.py::RaggedShape.view", "raggedshape.py::RaggedShape.view_rows", "raggedshape.py::RaggedView.view_rows",
            "raggedshape.py::RaggedView.view"]
 FLOOR_TAGS = ["sub:" + s.upper() for s in SUBS] + ["both-held"]
-FLOOR_MONITORS = ["c19:pair", "c19:int32-active", "inv:ragged"]
+FLOOR_MONITORS = ["c19:pair", "c19:int32-active"]
 N_RANDOM = {"quick": 9000, "thorough": 300000}
 _mods = {}
 
